@@ -616,10 +616,36 @@ static FA buildNfa(const NfaT& n)
 }
 
 // canonical text of an NFA read through its only observer, the dump
+// dump -> Timbuk text (real serializer) -> load into a fresh automaton of the same encoding (real parser, fresh dictionary) ->
+// dump by names: the description the reloaded automaton shows under the original state names (C13)
+template <class Aut>
+static Util::AutDescription reloadedDesc(const Aut& a)
+{
+	CaptureSerializer cs1, cs2;
+	a.DumpToString(cs1);
+	Util::AutDescription d = cs1.last;
+	for (auto& t : d.transitions) d.symbols.insert(std::make_pair(t.second, static_cast<int>(t.first.size())));
+	Serialization::TimbukSerializer ser;
+	string text = ser.Serialize(d);
+	Parsing::TimbukParser parser;
+	Aut b;
+	AutBase::StateDict dict;
+	b.LoadFromString(parser, text, dict);
+	b.DumpToString(cs2, dict);
+	return cs2.last;
+}
+
+static string fmtNfaDesc(const Util::AutDescription& desc);
 static string dumpNfa(const FA& a)
 {
 	CaptureSerializer cs;
 	a.DumpToString(cs);
+	return fmtNfaDesc(cs.last);
+}
+
+static string fmtNfaDesc(const Util::AutDescription& desc)
+{
+	struct { const Util::AutDescription& last; } cs = {desc};
 	vector<string> tr;
 	std::set<size_t> starts;
 	for (auto& t : cs.last.transitions) {
@@ -709,6 +735,16 @@ static string opNfaHist(const vector<string>& steps)
 		else if (op == "assign") { ent(1) = ent(2); }
 		else if (op == "move") { pool.emplace_back(new FA(std::move(ent(1)))); pool[toN(f.at(1))].reset(); }
 		else if (op == "kill") { pool[toN(f.at(1))].reset(); }
+		else if (op == "rt") {
+			// dump -> text -> load -> dump by names, and the start / final states read through the API (not the dump)
+			FA& a = ent(1);
+			out << " rt" << k << "=" << fmtNfaDesc(reloadedDesc(a));
+			std::set<size_t> ss(a.GetStartStates().begin(), a.GetStartStates().end());
+			out << " ss" << k << "=";
+			bool first = true;
+			for (size_t q : ss) { if (!first) out << ","; out << q; first = false; }
+			if (ss.empty()) out << "-";
+		}
 		else throw std::invalid_argument("unknown step " + op);
 		out << " S" << k;
 		for (size_t i = 0; i < pool.size(); ++i) if (pool[i]) out << " " << k << "." << i << "=" << dumpNfa(*pool[i]);
@@ -985,11 +1021,18 @@ static size_t numAfter(const string& s, char c)
 }
 
 // numeric dump of a BDD automaton (state names are numbers when no dictionary is given)
+static string fmtBddDesc(const Util::AutDescription& desc);
 template <class Aut>
 static string dumpBdd(const Aut& a)
 {
 	CaptureSerializer cs;
 	a.DumpToString(cs);
+	return fmtBddDesc(cs.last);
+}
+
+static string fmtBddDesc(const Util::AutDescription& desc)
+{
+	struct { const Util::AutDescription& last; } cs = {desc};
 	vector<string> rs;
 	for (auto& t : cs.last.transitions) {
 		std::ostringstream os;
@@ -1142,6 +1185,7 @@ static string bddHist(const vector<string>& steps)
 		else if (op == "copy") { pool.emplace_back(new Aut(ent(1))); }
 		else if (op == "assign") { ent(1) = ent(2); }
 		else if (op == "kill") { pool[ix(1)].reset(); }
+		else if (op == "rt") { out << " rt" << k << "=" << fmtBddDesc(reloadedDesc(ent(1))); }
 		else if (op == "loadinto") {	// LoadFromString into an existing automaton (AddTransition on a possibly shared table)
 			Parsing::TimbukParser parser;
 			AutBase::StateDict d;
@@ -1720,6 +1764,8 @@ int main(int argc, char** argv)
 	if (argc > 2) g_selTimeout = atoi(argv[2]);
 	signal(SIGALRM, onAlarm);
 	std::ios::sync_with_stdio(true);
+	// the NFA alphabet is process-wide: number a0..a7 before any case can register other symbol names (kinds are mixed)
+	initFaAlphabet();
 	string line;
 	while (std::getline(std::cin, line)) {
 		if (line.empty() || line[0] == '#') continue;
